@@ -56,12 +56,13 @@ def dS (n : Nat) : Str := dSAux n n []
 
 /-! ### characters, whitespace, words -/
 
-/-- `str.isspace()` for one code point (the complete list for Unicode 15). -/
+/-- `str.isspace()` for one code point (the complete list for Unicode 15); the ASCII range is
+    tested first because the kernel evaluates this for every character -/
 def isWs (c : Nat) : Bool :=
   let n := c
-  (decide (9 ≤ n) && decide (n ≤ 13)) || (decide (28 ≤ n) && decide (n ≤ 32)) || n == 0x85 || n == 0xA0 ||
-  n == 0x1680 || (decide (0x2000 ≤ n) && decide (n ≤ 0x200A)) || n == 0x2028 || n == 0x2029 ||
-  n == 0x202F || n == 0x205F || n == 0x3000
+  if n < 128 then (decide (9 ≤ n) && decide (n ≤ 13)) || (decide (28 ≤ n) && decide (n ≤ 32))
+  else n == 0x85 || n == 0xA0 || n == 0x1680 || (decide (0x2000 ≤ n) && decide (n ≤ 0x200A)) || n == 0x2028 ||
+    n == 0x2029 || n == 0x202F || n == 0x205F || n == 0x3000
 
 def lstrip (s : Str) : Str := s.dropWhile isWs
 def rstrip (s : Str) : Str := (s.reverse.dropWhile isWs).reverse
